@@ -7,6 +7,9 @@ written (TAR: the BYTES every extractfile handle delivers, archives with hard-li
 pointing at in-limit and oversize members; ZIP / TAR / 7z archives whose member NAMES repeat — the bytes every ZipFile.open /
 extractfile handle delivers; 7z folders with coder CHAINS — the output of every stage and of every lzma decoder call), ODS sheet
 shapes incl. covered cells, text:s paragraphs, XLSX used-cell sets.
+(3) on every run, whole archives through read_archive on a counted BytesIO (builders/c12_cost.py): bytes read from the input / rewinds
+for every stored ORDER of the members (tar.gz / tar.bz2 / tar.xz / tar / zip), and a compressed inner archive under EVERY member-name
+suffix known to mimetypes / the router's tables (nests of depth <= 4, fan-out <= 3) — laws in lean/S2T/Props/C12_Cost.lean.
 search: the property statement itself on the real code (boundary lattice; iteration counts, copied bytes, allocated
 cells, bytes read per member, decoded / written members on amplifying inputs; repeat independence of empty runs),
 independent of the Lean model.
@@ -24,6 +27,7 @@ from builders import c12_limits as X
 from builders import c12_loopcheck, c12_loops as L
 from builders import c12_xmlcheck as XC
 from builders import c12_history as H
+from builders import c12_cost as K
 from builders.c12_trace import Probe, StepLimit, Tracer
 
 GEN = ["Loops", "C12Consts", "C12Xml", "C12Sites", "PyLoops", "Aes", "PyAes"]
@@ -565,6 +569,95 @@ def _oracle_streams(ctx):
     return list(out)
 
 
+# ---- COST of whole archives through read_archive (judged on the real code, no model involved): work per input byte whatever the
+#      stored order of the members; no recursive unpacking of members that are archives, under any member name
+REREAD_C = 4           # oracle: the library may read the archive it was handed at most REREAD_C times (it reads it twice today)
+REREAD_REWINDS = 4     # oracle: rewinds of the input to offset 0, independent of the number of members
+REREAD_N = (60, 120)
+
+
+def _reread_violation(kind, order, n, size=2048, seed=0):
+    """the statement on an archive of n small documents stored in `order`: run time within a fixed multiple of the input size —
+    bytes read from the input <= REREAD_C * len, rewinds of the input <= REREAD_REWINDS (a forward-only decompressor that is
+    asked for an EARLIER member inflates the stream from the start again: members x archive size)"""
+    if n > 200 or size > 8192:
+        return Violation("harness.unsafe-input", "refusing an order archive above 200 members / 8 KB per member", {}, found_input=False), ""
+    g = K.reread_run(kind, order, n, size, seed)
+    msg = (f"{kind} archive of {g['len']} bytes, {n} documents of {size} bytes stored in {order} name order "
+           f"(first: {K.order_names(order, n, seed)[:3]}): read_archive read {g['n_read']} bytes from it ({g['n_read'] / max(1, g['len']):.1f} x its size), "
+           f"rewound it {g['rewinds']} times, {g['docs']} documents, err={g['err']}")
+    rep = {"kind": "archive_order", "archive": kind, "order": order, "n": n, "size": size, "seed": seed}
+    if g["n_read"] > REREAD_C * g["len"] + 65536 or g["rewinds"] > REREAD_REWINDS:
+        return Violation("archive.member-order-rereads-input", msg + f" — the statement: run time within a fixed multiple of the input size "
+                         f"(allowed here: {REREAD_C} passes, {REREAD_REWINDS} rewinds, irrespective of the number and order of members)", rep), msg
+    if g["err"] is not None or g["docs"] != n:
+        return Violation("archive.member-order-rereads-input", msg + f" — expected {n} documents", rep), msg
+    return None, msg
+
+
+def _oracle_reread(ctx):
+    if getattr(ctx, "_c12_reread", None) is not None:
+        return list(ctx._c12_reread)
+    out = []
+    seed = getattr(ctx, "seed", 0) or 0
+    for kind in K.ORDER_KINDS:
+        for order in K.ORDERS:
+            for n in (REREAD_N if ctx.thorough else REREAD_N[-1:]):
+                ctx.count(f"oracle/archive-order/{kind}/{order}")
+                v, _ = _reread_violation(kind, order, n, seed=seed)
+                if v is not None and not out:
+                    out.append(v)
+    ctx._c12_reread = out
+    return list(out)
+
+
+def _nested_violation(outer, inner, suffix, depth, fan):
+    """the statement on a nest of compressed archives (fan-out `fan`, `depth` levels, members named part<i><suffix>): the text
+    handed back stays within AMP_K x the archive's size after ONE level of decompression, irrespective of the nesting depth"""
+    if depth > K.MAX_DEPTH or fan > K.MAX_FAN:
+        return Violation("harness.unsafe-input", "refusing a nest deeper than 4 / wider than 3", {}, found_input=False), ""
+    g = K.nested_run(outer, inner, suffix, depth, fan)
+    g1 = K.nested_run(outer, inner, suffix, 1, fan)
+    msg = (f"{outer} archive of {g['len']} bytes ({g['unpacked']} unpacked) holding {fan} members part<i>{suffix} that are {inner} archives, nested "
+           f"{depth} deep around one 4 KB document: read_archive returned {g['docs']} documents, {g['chars']} characters, {g['marked']} of them "
+           f"copies of the innermost document (depth 1: {g1['docs']} documents, {g1['chars']} characters), err={g['err']}")
+    rep = {"kind": "nested_archive", "outer": outer, "inner": inner, "suffix": suffix, "depth": depth, "fan": fan}
+    if g["chars"] > AMP_K * max(g["unpacked"], g["len"]) or g["marked"] > fan:
+        return Violation("archive.nested-member-unpacked-recursively", msg + f" — members that are archives are unpacked recursively: documents grow "
+                         f"as {fan}^depth while the input stays ~1 KB (the statement: cost within a fixed multiple of the input size irrespective of nesting depth)", rep), msg
+    return None, msg
+
+
+def _oracle_nested(ctx):
+    if getattr(ctx, "_c12_nested", None) is not None:
+        return list(ctx._c12_nested)
+    out = []
+    names = K.name_universe()
+    ctx.coverage["nested_name_universe"] = len(names)
+    for outer in K.OUTER_KINDS:
+        for inner in K.INNER_KINDS:
+            ctx.count(f"oracle/nested-archive/{outer}<-{inner}", len(names))
+            for sfx in K.leaking_suffixes(outer, inner, names):
+                v, _ = _nested_violation(outer, inner, sfx, K.MAX_DEPTH, K.MAX_FAN)
+                if v is not None and not out:
+                    out.append(v)
+            if out:
+                break
+        if out:
+            break
+    # fixed deep nests under the names every archive tool writes (also when the depth-1 probe saw nothing: recursion that
+    # starts only below the first level)
+    if not out:
+        for outer, inner, sfx in (("tar.gz", "tar.gz", ".tar.gz"), ("zip", "zip", ".zip"), ("tar.gz", "tar.gz", ".taz"), ("zip", "tar.gz", ".tgz"), ("tar.gz", "zip", ".ZIP")):
+            ctx.count("oracle/nested-archive/deep")
+            v, _ = _nested_violation(outer, inner, sfx, 3, 3)
+            if v is not None:
+                out.append(v)
+                break
+    ctx._c12_nested = out
+    return list(out)
+
+
 def correspondence(ctx):
     broken, mism = c12_loopcheck.run(ctx, Broken)
     ctx._c12_mismatches = mism
@@ -575,7 +668,7 @@ def correspondence(ctx):
     # the package oracle for entity constructs runs on every check (see builders/c12_xmlcheck.py for why); so does the
     # archive oracle (duplicate member names, coder chains): a change there leaves results and unique-name / single-coder
     # archives alone, so nothing else would call for a search
-    return {"broken": broken, "violations": XC.sweep(ctx, Violation) + _oracle_archives(ctx) + _oracle_deferred(ctx) + _oracle_histories(ctx) + _oracle_streams(ctx)}
+    return {"broken": broken, "violations": XC.sweep(ctx, Violation) + _oracle_archives(ctx) + _oracle_deferred(ctx) + _oracle_histories(ctx) + _oracle_streams(ctx) + _oracle_reread(ctx) + _oracle_nested(ctx)}
 
 
 # ============================================================================ oracle (property statement on the real code)
@@ -1155,7 +1248,7 @@ def search(ctx, broken):
             v = _history_violation(c["size"], c["events"])
             if v is not None and not any(x.key == v.key for x in vs):
                 vs.append(v)
-    vs += _oracle_histories(ctx) + _oracle_streams(ctx)
+    vs += _oracle_histories(ctx) + _oracle_streams(ctx) + _oracle_reread(ctx) + _oracle_nested(ctx)
     vs += XC.sweep(ctx, Violation, full=True)
     # open known findings are reported by known_witnesses(); returning them here would hide a broken obligation
     # for which no NEW failing input exists (run.py then says `no-failing-input-found`)
@@ -1193,6 +1286,12 @@ def replay(ctx, payload):
         return v is None, v.what if v else f"history {rep['events']} on a {rep['size']}-byte file: every read within the limit in force, no unfounded refusal"
     if kind == "packed_stream":
         v, msg = _stream_violation(rep)
+        return v is None, v.what if v else msg
+    if kind == "archive_order":
+        v, msg = _reread_violation(rep["archive"], rep["order"], rep["n"], rep.get("size", 2048), rep.get("seed", 0))
+        return v is None, v.what if v else msg
+    if kind == "nested_archive":
+        v, msg = _nested_violation(rep["outer"], rep["inner"], rep["suffix"], rep["depth"], rep["fan"])
         return v is None, v.what if v else msg
     if kind == "7z_size":
         d = X.sevenzip_size_decision(rep["size"])
